@@ -39,7 +39,8 @@ REQB = ("none", "ascii", "utf8", "latin1", "form", "binary")
 STATUS = (200, 404, 301, 204)
 RESPH = ("plain", "setcookies", "location")
 CLEN = ("cl", "nocl")
-RESPB = ("empty", "ascii", "utf8_charset", "utf8_nocharset", "latin1_charset", "binary", "json")
+RESPB = ("empty", "ascii", "utf8_charset", "utf8_nocharset", "latin1_charset", "binary", "json",
+         "invalid_utf8_declared", "invalid_utf8_html")  # mostly text, with bytes that are invalid in the charset in force
 RESPB_UNUSUAL = ("html_meta_latin1", "utf8_bom")
 CODINGS = ("identity", "gzip", "br", "deflate", "zstd")
 DIMS = ("method", "ver", "url", "reqh", "reqb", "status", "resph", "clen", "respb", "coding")
@@ -174,6 +175,14 @@ def build_flow(row: dict, idx: int, rng: random.Random):
     elif k == "binary":
         body = b"\x89PNG\r\n\x1a\n" + bytes(rng.randrange(256) for _ in range(rng.randint(40, 400)))
         rtype = "image/png"
+    elif k == "invalid_utf8_declared":  # charset=utf-8 declared, a stray 0xff / truncated sequence inside
+        body = (_text(rng, "utf8") + " ").encode("utf-8") + rng.choice([b"\xff", b"\xc3", b"\xe2\x82", b"\xff\xfe"]) \
+            + (" " + _text(rng, "ascii")).encode()
+        rtype = "text/plain; charset=utf-8"
+    elif k == "invalid_utf8_html":  # no charset declared: text/html falls back to UTF-8
+        body = b"<html><body>" + _text(rng, "ascii").encode() + rng.choice([b" \xff ", b" \xa0\xa1 ", b" caf\xe9 "]) \
+            + _text(rng, "utf8").encode("utf-8") + b"</body></html>"
+        rtype = "text/html"
     elif k == "html_meta_latin1":  # the charset is declared in the document only
         body = ('<html><head><meta charset="iso-8859-1"></head><body>' + _text(rng, "latin1") + " caf\xe9</body></html>").encode("latin-1")
         rtype = "text/html"
@@ -364,7 +373,8 @@ class Check(core.PropertyCheck):
     MON = "Mon_Har"
     REQUIRED_WITNESSES = ("GET", "POST", "PUT", "PATCH", "DELETE", "HEAD", "OPTIONS", "HTTP/1.1", "HTTP/2.0", "HTTP/3",
                           "identity", "gzip", "br", "deflate", "zstd", "binary", "latin1_charset", "utf8_charset",
-                          "utf8_nocharset", "json", "empty", "latin1", "utf8", "form", "dup", "mixedcase", "host",
+                          "utf8_nocharset", "json", "empty", "invalid_utf8_declared", "invalid_utf8_html", "latin1", "utf8", "form",
+                          "dup", "mixedcase", "host",
                           "setcookies", "location", "cl", "nocl", "escaped", "query", "https_default", "http_port",
                           "body_method_with_body", "list", "done")
     REQUIRED_ACTIONS = ("Add", "Export", "Import")
